@@ -32,7 +32,10 @@ def collected_items(e):
 # ------------------------------------------------------------------ data classes (spec-generated)
 def _dc(V, spec_id, group):
     o = sym_options(V, group)
-    cap = V.pick('max_errors', [None, 1, 2, 3])
+    if group == 'alias':
+        # the lookup strategies keep separate books of what was provided / rejected
+        o['data_first_search'] = V.bool('data_first_search')
+    cap = V.pick('max_errors', [None, 1, 2, 3] if V.thorough or group != 'alias' else [None, 2])
     items = sym_items(V, spec_id, limit=limit_for(V, spec_id, group), strs=V.thorough or spec_id != 'onerr')
     co = dict(o, collect_errors=True)
     if cap:
@@ -68,7 +71,7 @@ def _dc(V, spec_id, group):
         V.cover('capped')
 
 
-C10_SPECS = {'basic': ['plain', 'addition'], 'onerr': ['plain', 'policy'], 'mix': ['plain', 'addition'],
+C10_SPECS = {'basic': ['plain', 'addition', 'alias'], 'onerr': ['plain', 'policy'], 'mix': ['plain', 'addition'],
              'deps': ['plain'], 'alias': ['plain'], 'mode': ['mode']}
 for _spec, _groups in C10_SPECS.items():
     for _g in GROUPS:
@@ -76,7 +79,7 @@ for _spec, _groups in C10_SPECS.items():
             continue
         ob('dataclass/%s/%s' % (_spec, _g), marks=['accept', 'reject'], budget=(100, 400), per_path=(15, 30),
            thorough_only=_g not in _groups,
-           bounds=bounds_text(_spec, _g, 'Schema') + '; the same declaration with and without collect_errors (max_errors '
+           bounds=bounds_text(_spec, _g, 'Schema') + '; lookup strategy solver-picked in the alias group; the same declaration with and without collect_errors (max_errors '
                   'picked from none,1,2,3)', out='as C05')((lambda s, g: lambda V: _dc(V, s, g))(_spec, _g))
 
 
